@@ -230,6 +230,20 @@ def rule_dtor_pair(ctx, cd):
     body = _fn_body(text, r"void destroy_current\(\)")
     ok = body is not None and "->" in body and "tag_ ==" in body
     ctx.ob(R, t.rel, "destroy_current() runs the destructor of the alternative selected by tag_", ok, "")
+    # the destructor call may be skipped only for alternatives that cannot own resources (primitive scalars)
+    nd = 0
+    for node, stack in j2front.walk(t.ast):
+        if isinstance(node, N.Filter) and node.name == "destructor_name":
+            nd += 1
+            fs = [(e.strip("()"), p) for e, p in j2front.facts(stack) if "loop.first" not in e]
+            extra = [(e, p) for e, p in fs if not (not p and e.replace(".data_type", "") in ("field is PrimitiveType",)) and
+                     not (p and e.replace(".data_type", "") in ("field is not PrimitiveType",))]
+            ok = not extra
+            ctx.ob(R, t.rel, "destroy_current(): the destructor runs for every alternative that is not a primitive scalar", ok,
+                   "" if ok else f"destructor call additionally skipped under {extra}: an alternative of such a kind can own heap storage "
+                   "(e.g. an array of composites holding variable-length arrays) and is then leaked on re-assignment / re-decoding", node.lineno)
+    if nd == 0:
+        raise AnalysisError("anchor missing: destructor_name in _fields_as_union.j2")
     # constructors start from npos / 0 and construct exactly once
     for label, sig in (("copy constructor", r"VariantType\(const VariantType& rhs\)"), ("move constructor", r"VariantType\(VariantType&& rhs\)")):
         body = _fn_body(text, sig)
@@ -302,3 +316,5 @@ def run(ctx):
     rule_union_index(ctx, cd)
     rule_replace(ctx, cd)
     rule_dtor_pair(ctx, cd)
+    from checks import C02
+    C02.rule_nested_bound(ctx, cd, "R-C04-NESTED-BOUND")
